@@ -4,6 +4,7 @@ import (
 	"fmt"
 	"go/token"
 	"go/types"
+	"sort"
 	"strings"
 
 	"golang.org/x/tools/go/ssa"
@@ -112,7 +113,7 @@ func checkC09(p *Prog, r *Report) {
 	scope, _ := moduleScope(p, consensusEntries(p))
 	r.Floor("functions-in-consensus-scope", len(scope), 60)
 	// D1
-	nSrc := 0
+	nSrc, nZone := 0, 0
 	for _, fn := range scope {
 		fname := FuncName(fn)
 		for _, b := range fn.Blocks {
@@ -145,6 +146,21 @@ func checkC09(p *Prog, r *Report) {
 						}
 					}
 					if !src {
+						if why := zoneDependentUse(x); why != "" {
+							nSrc++
+							nZone++
+							sink := "used for its side effect"
+							if x.Call.Signature().Results().Len() > 0 {
+								sink = flowsToSink(p, fn, x)
+							}
+							key := kp("FLOW", fname+"→local-zone:"+name+"@"+blockTag(fn, b))
+							if sink != "" {
+								r.Fail(key, "no rendering of a time in the node's local time zone reaches a consensus-visible sink", p.Pos(x.Pos()),
+									fmt.Sprintf("%s in %s, and the result is %s: time.Unix/Local/In yield the node's own zone (TZ, /etc/localtime), so nodes in different zones produce different bytes; convert with .UTC() first", why, fname, sink))
+							} else {
+								r.OK(key, "no rendering of a time in the node's local time zone reaches a consensus-visible sink", p.Pos(x.Pos()), why+" only feeds logging/telemetry")
+							}
+						}
 						continue
 					}
 					nSrc++
@@ -166,6 +182,8 @@ func checkC09(p *Prog, r *Report) {
 		}
 	}
 	r.Count("nondeterministic-sources-in-scope", nSrc)
+	r.Count("local-zone-renderings-in-scope", nZone)
+	zoneControl(p, r, kp("FLOW", "local-zone#control"))
 	// positive control outside the scope
 	ctl := 0
 	for _, fn := range p.ModFuncs {
@@ -178,6 +196,24 @@ func checkC09(p *Prog, r *Report) {
 		}
 	}
 	r.Floor("control:nondeterministic-sources-found-in-keystore", ctl, 2)
+
+	// D5 no process memory feeds block processing: a location outside the stores that block-processing code both writes and reads
+	// carries this node's own history (what it checked, simulated, when it restarted) into DeliverTx.
+	channels, _ := hiddenStateChannels(p, scope, scope)
+	var locs []string
+	for l := range channels {
+		locs = append(locs, l)
+	}
+	sort.Strings(locs)
+	for _, l := range locs {
+		ws, rs := channels[l][0], channels[l][1]
+		r.Fail(kp("STATE", "process-memory-feeds-block-processing:"+l), "block processing depends on the transaction, the block header and the stores only", p.Pos(rs[0].Instr.Pos()),
+			fmt.Sprintf("%s is written (%s) and read (%s) by block-processing code: its content depends on what this node executed before (CheckTx, simulations, restarts), so two nodes can process the same block differently", l, describeAccess(p, ws[0]), describeAccess(p, rs[0])))
+	}
+	if len(locs) == 0 {
+		r.OK(kp("STATE", "process-memory-feeds-block-processing#none"), "block processing depends on the transaction, the block header and the stores only", "x/*",
+			fmt.Sprintf("%d functions in scope: no package variable or long-lived struct field is both written and read", len(scope)))
+	}
 
 	// D2 map ranges
 	nMap := 0
